@@ -41,7 +41,7 @@ func (u *Unit) enterLoop(fr *Frame, li *loopInfo, st *State) *State {
 	m := u.m
 	tb := m.tb
 	invs := u.loopClauses(fr, li, "invariant")
-	if len(invs) == 0 {
+	if len(invs) == 0 && !(u.con != nil && u.con.onlyAsserts != "") {
 		panic(u.errf("loop %d of %s (block %d) has no invariant", li.ordinal, fr.fn.Name(), li.header.Index))
 	}
 	if li.modCells == nil {
@@ -324,6 +324,9 @@ func (u *Unit) callWith(fr *Frame, st *State, c *ssa.CallCommon, fv Val, args []
 		case con != nil:
 			return u.applyContract(fr, st, con, fn, args, pos, name)
 		case fn.Parent() != nil:
+			return u.inline(fr, st, f, nil, args, pos)
+		case fn.Synthetic != "" && (strings.HasSuffix(fn.Name(), "$thunk") || strings.HasSuffix(fn.Name(), "$bound")) && len(fn.Blocks) > 0:
+			// method expression / method value wrappers: a single call of the method
 			return u.inline(fr, st, f, nil, args, pos)
 		}
 		return u.havocCall(st, c, "call of uncontracted "+name)
